@@ -506,6 +506,9 @@ Proof.
   intros t a H; unfold genderb in H; unfold art_diag. destruct (gender M t); [| discriminate H]. rewrite H; reflexivity.
 Qed.
 
+(* from here on: the field name of a field assignment is not looked up as a variable *)
+Hypothesis Hq3 : q_field_name_lookup Q = false.
+
 Lemma ck_complete : forall F,
   (forall s G d r G1, stmt_chk M F G d r s = Some G1 -> sf_stmt M G s = Some G1 -> sok M G ->
        ck_stmt Q M F G d r s = ([], G1)) /\
@@ -547,7 +550,7 @@ Proof.
     destruct (field_of M s f) as [[[|] tf]|] eqn:Ef; try discriminate H1.
     destruct (assign_chk M F G e tf) eqn:E3; [| discriminate H1]. injection H1 as <-.
     destruct (tcs_assignfield_ok F G G (ext_refl G) (fun _ => Hs) (q_tc_by_name Q) r f x e s tf El Ef E3) as [Ht [Hx [_ [Hre Hpe]]]].
-    rewrite ck_assignfield_eq, El, Hpe, Hx, Hre, Ht. reflexivity.
+    rewrite ck_assignfield_eq, Hq3, El, Hpe, Hx, Hre, Ht. reflexivity.
   - (* SIf *)
     intros c th IHth el IHel G d r G1 H1 H2 Hs.
     pose proof (proj1 (rerun_ok F) _ _ _ _ _ H1 H2 Hs) as Hre. cbn in H1, H2.
@@ -736,23 +739,23 @@ Qed.
 End Complete.
 
 (* ---- imports ------------------------------------------------------------------------------------------ *)
-Lemma import_fold_complete : forall l sc F0,
+Lemma import_fold_complete : forall M l sc F0,
   NoDup (map idecl_name l) -> (forall d, In d l -> assoc (idecl_name d) sc = None) ->
-  fold_left ck_import_decl l ([], [sc], F0) =
-  ([], [rev (map (fun d => (idecl_name d, idecl_binding d)) l) ++ sc], rev (flat_map idecl_fun l) ++ F0).
+  fold_left (ck_import_decl M) l ([], [sc], F0) =
+  ([], [rev (map (fun d => (idecl_name d, idecl_binding d)) l) ++ sc], rev (flat_map (idecl_fun M) l) ++ F0).
 Proof.
-  induction l as [| d l IH]; intros sc F0 Hnd Hfresh; cbn [fold_left]; [reflexivity |].
+  intros M; induction l as [| d l IH]; intros sc F0 Hnd Hfresh; cbn [fold_left]; [reflexivity |].
   unfold ck_import_decl at 2. unfold insert. cbn [in_top]. rewrite (Hfresh d (or_introl eq_refl)). cbn [bind app].
   inversion Hnd as [| x xs Hnot Hnd']; subst.
   rewrite IH; auto.
-  - cbn [map rev flat_map]. rewrite rev_app_distr, idecl_fun_rev, <- !app_assoc. reflexivity.
+  - cbn [map rev flat_map]. rewrite rev_app_distr, <- !app_assoc. reflexivity.
   - intros d' Hd'. cbn. destruct (Nat.eqb (idecl_name d') (idecl_name d)) eqn:E.
     + apply Nat.eqb_eq in E. exfalso; apply Hnot. rewrite <- E. apply in_map; auto.
     + apply Hfresh; right; auto.
 Qed.
 
 Lemma import_names_fold : forall M xs ds st, find_all_pub M xs = Some ds ->
-  fold_left (ck_import_name M) xs st = fold_left ck_import_decl ds st.
+  fold_left (ck_import_name M) xs st = fold_left (ck_import_decl M) ds st.
 Proof.
   intros M; induction xs as [| x xs IH]; intros ds st H; cbn in H.
   - injection H as <-; reflexivity.
@@ -762,7 +765,7 @@ Proof.
 Qed.
 
 Lemma ck_import_complete : forall M i ds, import_decls M i = Some ds ->
-  ck_import M i = ([], [scope_of_decls ds], funs_of_decls ds).
+  ck_import M i = ([], [scope_of_decls ds], funs_of_decls M ds).
 Proof.
   intros M i ds H. destruct i as [| | xs]; cbn in H.
   - injection H as <-. reflexivity.
@@ -820,6 +823,7 @@ Variable Q : quirks.
 Variable M : imod.
 Hypothesis Hq1 : q_tc_by_name Q = false.
 Hypothesis Hq2 : q_field_unimported Q = false.
+Hypothesis Hq3 : q_field_name_lookup Q = false.
 
 Lemma nosok : forall G, q_field_unimported Q = true -> sok M G.
 Proof. intros G E; rewrite Hq2 in E; discriminate E. Qed.
@@ -914,7 +918,7 @@ Proof.
     destruct (field_of M s f) as [[[|] tf]|] eqn:Ef; try discriminate H1.
     destruct (assign_chk M F G e tf) eqn:E3; [| discriminate H1]. injection H1 as <-.
     destruct (tcs_assignfield_ok Q M F G G (ext_refl G) (nosok G) false r f x e s tf El Ef E3) as [_ [Hx [_ [Hr Hp]]]].
-    rewrite ck_assignfield_eq, El, Hp, Hx, Hr, Hq1, Hre. reflexivity.
+    rewrite ck_assignfield_eq, Hq3, El, Hp, Hx, Hr, Hq1, Hre. reflexivity.
   - intros c th IHth el IHel G d r G1 H1. pose proof (tcs_shallow F _ _ _ _ _ H1) as Hre. cbn in H1.
     destruct (has_typeb M F G c TBool) eqn:Ec; [| discriminate H1].
     destruct (block_chk M F (push G) d r th) as [Gth|] eqn:Eth; [| discriminate H1].
@@ -1015,36 +1019,49 @@ Qed.
 End Full.
 
 (* ---- the theorems ---------------------------------------------------------------------------------- *)
-(* every quirk setting: complete on shadow-free programs *)
-Theorem check_with_complete : forall Q p, wf p -> shadow_free p = true -> check_with Q p = [].
+(* every quirk setting without the field-name lookup: complete on shadow-free programs *)
+Theorem check_with_complete : forall Q p, q_field_name_lookup Q = false -> wf p -> shadow_free p = true -> check_with Q p = [].
 Proof.
-  intros Q p Hwf Hsf. apply wfb_iff in Hwf. unfold wfb in Hwf. unfold shadow_free in Hsf. unfold check_with.
+  intros Q p Hq Hwf Hsf. apply wfb_iff in Hwf. unfold wfb in Hwf. unfold shadow_free in Hsf. unfold check_with.
   apply andb_true_iff in Hsf as [Hm Hsf].
   destruct (import_decls (p_mod p) (p_imp p)) as [ds|] eqn:Ei; [| discriminate Hwf].
   rewrite (ck_import_complete _ _ _ Ei). cbn [app].
   apply ck_tops_complete; auto. apply sok_import; auto. eapply import_decls_in; eauto.
 Qed.
 
-(* settings in which the typechecker uses the resolver's bindings and fields are protected by type: complete *)
+(* settings in which the typechecker uses the resolver's bindings, fields are protected by type and field names are
+   not looked up as variables: complete *)
 Theorem check_with_complete_full : forall Q p, q_tc_by_name Q = false -> q_field_unimported Q = false ->
-  wf p -> check_with Q p = [].
+  q_field_name_lookup Q = false -> wf p -> check_with Q p = [].
 Proof.
-  intros Q p H1 H2 Hwf. apply wfb_iff in Hwf. unfold wfb in Hwf. unfold check_with.
+  intros Q p H1 H2 H3 Hwf. apply wfb_iff in Hwf. unfold wfb in Hwf. unfold check_with.
   destruct (import_decls (p_mod p) (p_imp p)) as [ds|] eqn:Ei; [| discriminate Hwf].
   rewrite (ck_import_complete _ _ _ Ei). cbn [app]. apply ck_tops_complete_full; auto.
 Qed.
 
-(* the frontend as it is now accepts every well-formed core program ... *)
-Theorem check_complete : forall p, wf p -> check p = [].
+(* the frontend with all repairs (also of the field-name lookup) accepts exactly the well-formed core programs *)
+Theorem check_patched_complete : forall p, wf p -> check_patched p = [].
 Proof. intros p; apply check_with_complete_full; reflexivity. Qed.
 
-(* ... hence exactly the well-formed ones *)
-Theorem check_iff_wf : forall p, check p = [] <-> wf p.
-Proof. intros p; split; [apply check_sound | apply check_complete]. Qed.
+Theorem check_patched_iff_wf : forall p, check_patched p = [] <-> wf p.
+Proof. intros p; split; [apply check_patched_sound | apply check_patched_complete]. Qed.
 
-(* the pinned frontend: complete only without shadowing *)
-Theorem check_pinned_complete_core : forall p, wf p -> shadow_free p = true -> check_pinned p = [].
-Proof. intros p; apply (check_with_complete pinned). Qed.
+(* the frontend as it is now still rejects a well-formed program: a Konstante that is called like a field
+     Binde "modul" ein.  Die Konstante x2 ist 1.  Speichere 3 in x2 von x10.        (x2: public field of x10's Kombination) *)
+Definition w_field_name : prog :=
+  {| p_mod := [IStruct true 1 Der [(true, 2, TZahl)]; IVar true 10 (TStruct 1)]; p_imp := ImpAll;
+     p_tops := [TStmt (SConst Die 2 LZahl); TStmt (SAssignField 2 10 (ELit LZahl))] |}.
+
+Theorem check_complete_refuted : exists p, wf p /\ check p <> [] /\ check_patched p = [].
+Proof.
+  exists w_field_name. split; [apply wfb_iff; vm_compute; reflexivity |].
+  split; [vm_compute; discriminate | vm_compute; reflexivity].
+Qed.
+
+(* the pinned frontend: complete only without shadowing (and without the field-name lookup mattering) *)
+Theorem check_pinned_complete_core : forall p, wf p -> shadow_free p = true ->
+  check_with {| q_void_eq := true; q_void_ret := true; q_tc_by_name := true; q_field_unimported := true; q_field_name_lookup := false |} p = [].
+Proof. intros p; apply check_with_complete; reflexivity. Qed.
 
 (* regression fact: the pinned frontend rejected this well-formed program
      Die Zahl x1 ist 1.
@@ -1065,7 +1082,7 @@ Qed.
 
 (* non-vacuity: a shadow-free well-formed program with a function, a loop, a call and an import *)
 Definition ex_ok : prog :=
-  {| p_mod := [IStruct true 1 Der [(true, 2, TZahl); (false, 3, TZahl)]; IVar true 10 (TStruct 1); IFun true 30 [(TZahl, false)] (Some TZahl)];
+  {| p_mod := [IStruct true 1 Der [(true, 2, TZahl); (false, 3, TZahl)]; IAlias 40 1 [2; 3]; IVar true 10 (TStruct 1); IFun true 30 [(TZahl, false)] (Some TZahl)];
      p_imp := ImpAll;
      p_tops := [TStmt (SVar Die TZahl 100 (EField 2 (EVar 10)));
                 TStmt (SConst Die 104 LZahl);
@@ -1080,7 +1097,8 @@ Definition ex_ok : prog :=
                 TStmt (SForEach Die TZahl 106 (EBin BVerkettet (EVar 105) (EVar 100)) (BCons (SAssign 100 (EVar 106)) BNil));
                 TStmt (SRepeat (BCons (SAssign 100 (EUn ULen (ESlice (EVar 105) (ELit LZahl) (EVar 100)))) BNil) (ELit LZahl));
                 TStmt (SDoWhile (BCons (SAssign 100 (ELit LZahl)) BNil) (ELit LBool));
-                TStmt (SConst Die 107 LText)] |}.
+                TStmt (SConst Die 107 LText);
+                TStmt (SVar Der (TStruct 1) 108 (ECall 40 (ACons (EVar 100) (ACons (ELit LZahl) ANil))))] |}.
 
 Lemma ex_ok_facts : wfb ex_ok = true /\ shadow_free ex_ok = true /\ quirk_free ex_ok = true /\ check ex_ok = [] /\ check_pinned ex_ok = [].
 Proof. repeat split; vm_compute; reflexivity. Qed.
